@@ -455,6 +455,32 @@ func (c10Prop) Execute(p *Plan, run *Run) any {
 			return map[string]any{"skipped": fmt.Sprint(out.Err, out.Panic)}
 		}
 		Dref = append(Dref, out.Delivered)
+		// Context independence: record i read as the only record of its own
+		// file must equal record i read after its predecessors ("a later
+		// record never inherits field values from an earlier one").
+		if len(out.Delivered) == len(bf.Values) {
+			for ri, v := range bf.Values {
+				one := fs
+				one.Flush, one.Parts = nil, nil
+				sf, err := BuildFileWith(one, []reflect.Value{v})
+				if err != nil {
+					break
+				}
+				so := readAll(bf.Desc.Type, NewDiskReader(sf.Bytes, ChunkSpec{}), -1, nil)
+				run.Evals++
+				if so.Panic != nil || so.Err != nil || len(so.Delivered) != 1 {
+					break
+				}
+				if ok, where := EqualNorm(so.Delivered[0], out.Delivered[ri]); !ok {
+					q := p.clone()
+					q.C10.Ops = nil
+					q.C10.Files = []FileSpec{fs}
+					q.C10.Chunks = []ChunkSpec{pl.Chunks[i%len(pl.Chunks)]}
+					run.Violation("c10/record-depends-on-predecessor", "readfile", fmt.Sprintf("file %d: record %d decodes differently after its predecessors than as the only record of a file (inherited content): %s", i, ri, where), q)
+					return nil
+				}
+			}
+		}
 		tasks = append(tasks, &c10Task{idx: i, bf: bf, toTask: make(chan int), fromTask: make(chan c10Delivery)})
 		if c, err := ref.ParseContainer(bf.Bytes); err == nil {
 			for j := 1; j < len(c.Blocks); j++ {
@@ -621,8 +647,25 @@ func (c10Prop) Execute(p *Plan, run *Run) any {
 		return nil, ""
 	}
 
+	var userAlloc1 func(opi int, h *c10Held, alloc func(reflect.Type) unsafe.Pointer, ti int) bool
+	// userAlloc allocates one object, or — every fourth time — a burst of up to
+	// 160 objects of one type, so that a bank's per-type array is filled and
+	// regrown several times while everything allocated earlier is still live.
 	userAlloc := func(opi int, h *c10Held, alloc func(reflect.Type) unsafe.Pointer, ti int) bool {
-		t := c10AllocTypes[ti%len(c10AllocTypes)]
+		n := 1
+		if (ti>>4)&3 == 0 {
+			n = 1 + (ti>>6)%160
+			run.Probes.Inc("allocation-burst")
+		}
+		for k := 0; k < n; k++ {
+			if !userAlloc1(opi, h, alloc, ti) {
+				return false
+			}
+		}
+		return true
+	}
+	userAlloc1 = func(opi int, h *c10Held, alloc func(reflect.Type) unsafe.Pointer, ti int) bool {
+		t := c10AllocTypes[(ti&15)%len(c10AllocTypes)]
 		var ptr unsafe.Pointer
 		if pan, site := lib(func() { ptr = alloc(t) }); pan != nil {
 			fail(opi, "c10/panic", site, fmt.Sprintf("op %d: Alloc(%s) panicked: %v", opi, t, pan))
